@@ -2,6 +2,7 @@ SPECIFICATION MCSpec
 CONSTANTS
   Proc = {"s1", "s2", "s3", "s4"}
   CloneSeq <- Clones3
+  MaxCancels = 2
   Defect_CheckThenClone = FALSE
   Defect_UnlockedJoin = FALSE
   Defect_SplitDrop = FALSE
